@@ -38,6 +38,27 @@ class Ctx:
     def cleanup(self, d):
         shutil.rmtree(d, ignore_errors=True)
 
+    @staticmethod
+    def spell(tdir, salt):
+        """The same trace directory named differently on the command line (trailing
+        slashes, relative, through '.' and '..'): -> (argument, cwd).  No statement
+        depends on how the directory is spelled."""
+        k = salt % 16
+        parent, base = os.path.split(tdir)
+        if k == 0:
+            return tdir + "/", None
+        if k == 1:
+            return tdir + "//", None
+        if k == 2:
+            return base, parent
+        if k == 3:
+            return "./" + base + "/", parent
+        if k == 4:
+            return os.path.join("..", os.path.basename(parent), base), parent
+        if k == 5:
+            return os.path.join(parent, ".", base), None
+        return tdir, None
+
     def run_tool(self, name, args, san=False, heapbuf=False, timeout=TOOL_TIMEOUT, cwd=None, stdin=None):
         """Returns (status, stdout, stderr).  status: int exit code, or
         'signal:<n>' or 'timeout'."""
